@@ -658,9 +658,24 @@ class CSSStyleSheet(cssutils.stylesheets.StyleSheet):
             # variables?
 
         elif isinstance(rule, cssutils.css.CSSRuleList):
-            # insert all rules
-            for i, r in enumerate(rule):
-                self.insertRule(r, index + i)
+            # insert all rules, or none if one of them is refused
+            oldrules = list(self._cssRules)
+            links = [
+                (r, r._parent, r._parentRule, r._parentStyleSheet) for r in rule
+            ]
+            try:
+                for i, r in enumerate(rule):
+                    self.insertRule(r, index + i)
+            except xml.dom.DOMException:
+                del self._cssRules[:]
+                for r in oldrules:
+                    self._cssRules.insert(len(self._cssRules), r)
+                    r._parentStyleSheet = self
+                for r, parent, parentRule, parentStyleSheet in links:
+                    if not any(r is x for x in oldrules):
+                        r._parent, r._parentRule = parent, parentRule
+                        r._parentStyleSheet = parentStyleSheet
+                raise
             return index
 
         if not rule.wellformed:
